@@ -72,3 +72,125 @@ let () = register "c12" (fun line ->
 let () = register "c12spec" (fun line ->
   let key = bytes_of_hex line in
   Printf.sprintf "%d %d %s" (int_of_n (Slot.slot_spec key)) (int_of_n (Slot.crc16_spec key)) (hex_of_bytes (Slot.hashtag key)))
+
+(* ---------------- C10: RESP values in token form ---------------- *)
+let rec fmt_val (b : Buffer.t) (v : Resp.resp) : unit =
+  match v with
+  | Resp.Simple t -> Buffer.add_string b ("S" ^ hex_of_bytes t)
+  | Resp.Err t -> Buffer.add_string b ("E" ^ hex_of_bytes t)
+  | Resp.Int z -> Buffer.add_string b ("I" ^ dec_of_z z)
+  | Resp.Bulk None -> Buffer.add_string b "Bn"
+  | Resp.Bulk (Some t) -> Buffer.add_string b ("B" ^ hex_of_bytes t)
+  | Resp.Arr None -> Buffer.add_string b "An"
+  | Resp.Arr (Some l) ->
+    Buffer.add_string b ("A" ^ string_of_int (L.length l));
+    L.iter (fun x -> Buffer.add_char b ' '; fmt_val b x) l
+let val_string v = let b = Buffer.create 64 in fmt_val b v; Buffer.contents b
+
+let parse_val (toks : string array) (pos : int ref) : Resp.resp =
+  let rec go () =
+    let t = toks.(!pos) in incr pos;
+    let rest = S.sub t 1 (S.length t - 1) in
+    match t.[0] with
+    | 'S' -> Resp.Simple (bytes_of_hex rest)
+    | 'E' -> Resp.Err (bytes_of_hex rest)
+    | 'I' -> Resp.Int (z_of_dec rest)
+    | 'B' -> if t = "Bn" then Resp.Bulk None else Resp.Bulk (Some (bytes_of_hex rest))
+    | 'A' -> if t = "An" then Resp.Arr None else
+        let k = int_of_string rest in
+        let rec many i acc = if i = 0 then L.rev acc else let v = go () in many (i - 1) (v :: acc) in
+        Resp.Arr (Some (many k []))
+    | _ -> failwith "bad token" in
+  go ()
+
+let rerr_name (e : Reader.rerr) : string = match e with
+  | Reader.EOF -> "EOF" | Reader.UnexpectedEOF -> "UnexpectedEOF" | Reader.NoProgress -> "NoProgress"
+  | Reader.BufferFull -> "BufferFull" | Reader.SrcErr -> "SrcErr" | Reader.BadCRLF -> "BadCRLF"
+  | Reader.BadRespType -> "BadRespType" | Reader.BadArrayLen -> "BadArrayLen"
+  | Reader.BadArrayLenTooLong -> "BadArrayLenTooLong" | Reader.BadBulkLen -> "BadBulkLen"
+  | Reader.BadBulkLenTooLong -> "BadBulkLenTooLong" | Reader.BadMultiBulkLen -> "BadMultiBulkLen"
+  | Reader.BadMultiBulkContent -> "BadMultiBulkContent" | Reader.IntSyntax -> "IntSyntax"
+  | Reader.IntRange -> "IntRange" | Reader.OutOfFuel -> "OutOfFuel" | Reader.Impossible -> "Impossible"
+
+let end_of s = if s = "S" then Reader.SrcErr else Reader.EOF
+let sizes_of s = if s = "-" then [] else L.map (fun x -> n_of_int (int_of_string x)) (S.split_on_char ',' s)
+
+let itoa_tab = lazy (Resp.mk_itoa_tab Tables.min_itoa Tables.max_itoa)
+
+let dec_out (vs, e) =
+  let b = Buffer.create 256 in
+  L.iteri (fun i v -> if i > 0 then Buffer.add_char b '|'; fmt_val b v) vs;
+  Buffer.add_string b ("!" ^ rerr_name e); Buffer.contents b
+
+let () = register "c10dec" (fun line ->
+  match S.split_on_char ' ' line with
+  | [bs; e; sz; hx] ->
+    dec_out (Codec.decode_all_chunked Tables.max_array_len Tables.max_bulk_len (n_of_int (int_of_string bs))
+               (sizes_of sz) (end_of e) (bytes_of_hex hx))
+  | _ -> failwith "bad c10dec case")
+
+let () = register "c10decflat" (fun line ->
+  match S.split_on_char ' ' line with
+  | [bs; e; _; hx] ->
+    dec_out (Codec.decode_all_flat Tables.max_array_len Tables.max_bulk_len (n_of_int (int_of_string bs))
+               (end_of e) (bytes_of_hex hx))
+  | _ -> failwith "bad c10dec case")
+
+let () = register "c10enc" (fun line ->
+  let toks = Array.of_list (S.split_on_char ' ' line) in
+  let v = parse_val toks (ref 0) in
+  let bs = Resp.encode (Lazy.force itoa_tab) v in
+  let rt b = dec_out (Codec.decode_all_flat Tables.max_array_len Tables.max_bulk_len (n_of_int b) Reader.EOF bs) in
+  hex_of_bytes bs ^ " " ^ rt 4096 ^ " " ^ rt 32)
+
+let () = register "c10int" (fun line ->
+  let arg = S.sub line 2 (S.length line - 2) in
+  if line.[0] = 'b' then
+    (match Resp.btoi64 (bytes_of_hex arg) with
+     | Datatypes.Coq_inl z -> "ok " ^ dec_of_z z
+     | Datatypes.Coq_inr Resp.SyntaxErr -> "err IntSyntax"
+     | Datatypes.Coq_inr Resp.RangeErr -> "err IntRange")
+  else hex_of_bytes (Resp.itoa (Lazy.force itoa_tab) (z_of_dec arg)))
+
+(* Reader operations: chunked model and flat model side by side *)
+let run_ops (type s) (o : s Reader.ops) (s0 : s) (ops : string list) : string =
+  let st = ref s0 in
+  let out = L.map (fun op ->
+    let r tag (res, s') = st := s';
+      (match res with Reader.Ok bs -> tag ^ ":" ^ hex_of_bytes bs | Reader.Fail e -> tag ^ "!" ^ rerr_name e) in
+    match op.[0] with
+    | 'P' -> r "p" (let (x, s') = o.Reader.o_peek !st in ((match x with Reader.Ok c -> Reader.Ok [c] | Reader.Fail e -> Reader.Fail e), s'))
+    | 'Y' -> r "y" (let (x, s') = o.Reader.o_rbyte !st in ((match x with Reader.Ok c -> Reader.Ok [c] | Reader.Fail e -> Reader.Fail e), s'))
+    | 'S' -> let (x, s') = o.Reader.o_rslice !st in st := s';
+      (match x with Reader.Line l -> "s:" ^ hex_of_bytes l | Reader.Full f -> "s!BufferFull:" ^ hex_of_bytes f
+                  | Reader.SErr e -> "s!" ^ rerr_name e)
+    | 'L' -> r "l" (o.Reader.o_rbytes !st)
+    | 'F' -> r "f" (o.Reader.o_rfull (n_of_int (int_of_string (S.sub op 1 (S.length op - 1)))) !st)
+    | _ -> failwith "bad op") ops in
+  S.concat ";" out
+
+let () = register "c10rd" (fun line ->
+  match S.split_on_char ' ' line with
+  | [bs; e; sz; hx; ops] ->
+    let data = bytes_of_hex hx in
+    let b = n_of_int (int_of_string bs) in
+    let f = nat_of_int (L.length data + 1) in
+    run_ops (Reader.chunked_ops b f)
+      { Reader.win = []; cerr = None; src = data; sizes = sizes_of sz; send = end_of e } (S.split_on_char ',' ops)
+  | _ -> failwith "bad c10rd case")
+
+let () = register "c10rdflat" (fun line ->
+  match S.split_on_char ' ' line with
+  | [bs; e; _; hx; ops] ->
+    run_ops (Reader.flat_ops (n_of_int (int_of_string bs)))
+      { Reader.stream = bytes_of_hex hx; ferr = None; fend = end_of e } (S.split_on_char ',' ops)
+  | _ -> failwith "bad c10rd case")
+
+(* is the stream the canonical encoding of the values the flat model decodes from it? *)
+let () = register "c10canon" (fun line ->
+  match S.split_on_char ' ' line with
+  | [bs; e; _; hx] ->
+    let data = bytes_of_hex hx in
+    let (vs, err) = Codec.decode_all_flat Tables.max_array_len Tables.max_bulk_len (n_of_int (int_of_string bs)) (end_of e) data in
+    if err = Reader.EOF && Resp.encode_list (Lazy.force itoa_tab) vs = data then "canon" else "other"
+  | _ -> failwith "bad case")
